@@ -21,7 +21,7 @@ RULE = ("universes (2-6 projects x 1-4 versions incl. pre/post/dev releases, req
         "distinct = distinct (universe, inputs, constraints, options).")
 TRUSTED_BASE = SP.TRUSTED_BASE
 ASSUMPTIONS = SP.ASSUMPTIONS
-LEVEL_TEXT = "Theorem for all graphs: the annotation of a node is exactly the set of (current requirer, requirement under the extras requested of it) pairs with the requirer name, activating extras, specifier and requested extras; soundness of the honesty checker; 'abandoned requirers never appear' is refuted by a vm_compute witness (uncollected requirer cycle) replayed on /repo. Annotation structure of every emitted pin is part of the whole-compile correspondence."
+LEVEL_TEXT = "Theorem for all graphs: the annotation of a node is exactly the set of (current requirer, requirement under the extras requested of it) pairs with the requirer name, activating extras, specifier and requested extras; soundness of the honesty checker; for EVERY successful compile over an acyclic universe without extras, constraint files and walk-back no abandoned requirer is named (HonestP; with downgrade budget 0 the trace hypothesis follows), and each of these hypotheses is shown necessary: 'abandoned requirers never appear' is refuted by vm_compute witnesses of three mechanisms that replay on /repo (dependency cycle, walk-back re-solving a stale node object, late extra expanding then discarding a project) plus constraint-only projects - known findings. Annotation structure of every emitted pin is part of the whole-compile correspondence."
 LEVEL_NOTE = ("Trusted: Coq kernel, extraction, OCaml drivers, T1/T2 harness, packaging semantics (validated by the C17 grid), the "
               "measured set-iteration and marker oracles. Modelled, not verified: compile.py, dists.py, versions.py, containers.py.")
 TECHNIQUE = "Rocq theorems on a Gallina model of the solver + vm_compute refutation witnesses + extraction-based whole-compile differential correspondence"
